@@ -222,22 +222,84 @@ class FnInfo:
             seen += 1
         return n
 
-    def view_of(self, n):
-        """Ref to a local DenseVector range view -> (param index, len node, offset node) or None"""
-        if n is None or n.get("k") != "Ref" or n.get("dk") != "local" or n.get("d") not in self.vars:
-            return None
-        init = self.vars[n["d"]].get("init")
-        if init is None or init.get("k") not in ("Construct", "TempObj"):
-            return None
-        if not re.search(r"::DenseVector<[^:]*>::DenseVector$", init.get("callee", "")):
-            return None
-        a = init.get("a", [])
-        if init.get("pn") != ["dv_in", "size_in", "offset_in"] or len(a) != 3:
-            return None
-        src = a[0]
-        if src.get("k") == "Ref" and src.get("dk") == "param" and src.get("d") in self.pindex:
-            return (self.pindex[src["d"]], a[1], a[2])
+    # ---- range views DenseVector(dv_in, size_in, offset_in) of an operand ---------------------------------------
+    bydecl = None      # set by the caller: lets views built inside a helper struct's constructor be followed
+
+    @staticmethod
+    def _is_range_ctor(init):
+        return init is not None and init.get("k") in ("Construct", "TempObj") and re.search(r"::DenseVector<[^:]*>::DenseVector$", init.get("callee", "") or "") \
+            and init.get("pn") == ["dv_in", "size_in", "offset_in"] and len(init.get("a", [])) == 3
+
+    @staticmethod
+    def _subst(n, m):
+        if not isinstance(n, dict):
+            return n
+        if n.get("k") == "Ref" and n.get("d") in m:
+            return m[n["d"]]
+        out = {}
+        for k, v in n.items():
+            if isinstance(v, dict):
+                out[k] = FnInfo._subst(v, m)
+            elif isinstance(v, list):
+                out[k] = [FnInfo._subst(x, m) if isinstance(x, dict) else x for x in v]
+            else:
+                out[k] = v
+        return out
+
+    def _mkview(self, label, ctor, args, var):
+        src = self.resolve(args[0])
+        if src is not None and src.get("k") == "Ref" and src.get("dk") == "param" and src.get("d") in self.pindex:
+            return {"label": label, "p": self.pindex[src["d"]], "len": args[1], "off": args[2], "ctor": ctor, "a": args, "var": var}
         return None
+
+    def _local_views(self, d):
+        """views held by local d: {'': view} for a DenseVector range view, {member: view} for an object of a repository class
+        whose constructor builds range views of its first argument(s) in its member initialisers (arguments substituted)"""
+        cache = self.__dict__.setdefault("_views", {})
+        if d in cache:
+            return cache[d]
+        out = {}
+        v = self.vars.get(d)
+        init = v.get("init") if v else None
+        if self._is_range_ctor(init):
+            r = self._mkview(v.get("n"), init, init["a"], v)
+            if r:
+                out[""] = r
+        elif init is not None and init.get("k") in ("Construct", "TempObj") and self.bydecl is not None:
+            ctor = self.bydecl.get(init.get("cdecl"))
+            if ctor is not None and ctor.d.get("ctor") and len(init.get("a", [])) == len(ctor.params):
+                m = {p["d"]: a for p, a in zip(ctor.params, init["a"])}
+                for mi in ctor.d.get("inits") or []:
+                    ii = mi.get("init")
+                    if mi.get("member") and self._is_range_ctor(ii):
+                        r = self._mkview("%s.%s" % (v.get("n"), mi["member"]), ii, [self._subst(a, m) for a in ii["a"]], v)
+                        if r:
+                            out[mi["member"]] = r
+        cache[d] = out
+        return out
+
+    def view_record(self, n):
+        """Ref to a local range view, or member access local.field of a local that holds views -> view record or None"""
+        if n is None:
+            return None
+        if n.get("k") == "Ref" and n.get("dk") == "local" and n.get("d") in self.vars:
+            return self._local_views(n["d"]).get("")
+        if n.get("k") == "Member" and n.get("b") is not None:
+            b = self.resolve(n["b"])
+            if b is not None and b.get("k") == "Ref" and b.get("dk") == "local" and b.get("d") in self.vars:
+                return self._local_views(b["d"]).get(n.get("n"))
+        return None
+
+    def all_views(self):
+        out = []
+        for d in self.vars:
+            out.extend(self._local_views(d).values())
+        return out
+
+    def view_of(self, n):
+        """-> (param index, len node, offset node) or None"""
+        r = self.view_record(n)
+        return (r["p"], r["len"], r["off"]) if r else None
 
     def role(self, n):
         n = self.resolve(n)
@@ -629,36 +691,69 @@ def rule_e1_guards(ck, agg, f, fi, meta):
     return persp_used
 
 
+KERNEL_SUFFIX = ("_generic", "_mkl", "_cuda")
+
+
 def rule_e1_dispatch(ck, agg, facts, bydecl):
-    """Arch::Apply::X wrappers forward their own parameters position by position to X_generic/_mkl/_cuda"""
+    """Arch::Apply::X wrappers forward their own parameters position by position to X_generic/_mkl/_cuda.  A wrapper may
+    reach its kernels through intermediate dispatch helpers of Arch::Apply (twins sharing one dispatch function): the
+    argument mapping is composed along the chain, the obligation stays "entry point X -> kernel X_*"."""
     R = "E1.dispatch"
-    for f in facts.functions:
-        if f.cls != "FEAT::LAFEM::Arch::Apply" or f.tk == "pattern":
-            continue
-        if f.name.endswith(("_generic", "_mkl", "_cuda")):
-            continue
-        pidx = {p["d"]: i for i, p in enumerate(f.params)}
-        n = 0
+    fns = [f for f in facts.functions if f.cls == "FEAT::LAFEM::Arch::Apply" and f.tk != "pattern"]
+    wrappers = [f for f in fns if not f.name.endswith(KERNEL_SUFFIX)]
+    # helpers = wrappers that other wrappers call (not entry points)
+    inter = set()
+    for f in wrappers:
         for c in arch_calls(f):
-            n += 1
+            g = bydecl.get(c.get("cdecl"))
+            if g is not None and not g.name.endswith(KERNEL_SUFFIX) and g.d.get("decl") != f.d.get("decl"):
+                inter.add(g.d.get("decl"))
+
+    def chains(f, mapping, depth, seen):
+        """-> [(kernel call, kernel name, kernel fn|None, [root param index|None per argument], [problems])]"""
+        pidx = {p["d"]: i for i, p in enumerate(f.params)}
+        fi = FnInfo(f)
+        out = []
+        for c in arch_calls(f):
             cname = ARCH_APPLY.match(c["callee"]).group(1)
+            g = bydecl.get(c.get("cdecl"))
+            amap, bad = [], []
+            for i, a in enumerate(c.get("a", [])):
+                a = fi.resolve(a)
+                j = pidx.get(a.get("d")) if a is not None and a.get("k") == "Ref" and a.get("dk") == "param" else None
+                amap.append(mapping[j] if j is not None and j < len(mapping) else None)
+                if j is None:
+                    bad.append("argument %d of the call of %s in %s is '%s', not a parameter of %s" % (i, cname, f.name, render(a)[:40], f.name))
+            if cname.endswith(KERNEL_SUFFIX) or g is None:
+                out.append((c, cname, g, amap, bad, f))
+            elif depth >= 3 or g.d.get("decl") in seen:
+                ck.incomplete(R, "dispatch chain below Arch::Apply::%s deeper than 3 helpers or recursive (at %s)" % (f.name, cname))
+            else:
+                for t in chains(g, amap, depth + 1, seen | {g.d.get("decl")}):
+                    out.append(t[:4] + (bad + t[4],) + t[5:])
+        return out
+    for f in wrappers:
+        if f.d.get("decl") in inter:
+            continue
+        ch = chains(f, list(range(len(f.params))), 0, {f.d.get("decl")})
+        for c, cname, callee, amap, bad, via in ch:
             key = "Arch::Apply::%s->%s" % (f.name, cname)
-            args = c.get("a", [])
-            bad = []
-            if len(args) != len(f.params):
-                bad.append("%d arguments forwarded for %d parameters" % (len(args), len(f.params)))
-            for i, a in enumerate(args):
-                if not (a.get("k") == "Ref" and a.get("dk") == "param" and pidx.get(a.get("d")) == i):
-                    bad.append("argument %d is '%s', expected the wrapper's own parameter '%s'" % (i, render(a), f.params[i]["n"] if i < len(f.params) else "?"))
-            callee = bydecl.get(c.get("cdecl"))
+            bad = list(bad)
+            if len(amap) != len(f.params):
+                bad.append("%d arguments forwarded for %d parameters" % (len(amap), len(f.params)))
+            for i, j in enumerate(amap):
+                if j is not None and j != i:
+                    bad.append("argument %d of %s is the wrapper's parameter #%d '%s', expected its own parameter #%d '%s'" % (
+                        i, cname, j, f.params[j]["n"], i, f.params[i]["n"] if i < len(f.params) else "?"))
             if callee is not None:
                 for i, p in enumerate(callee.params[:len(f.params)]):
                     if p["n"] and f.params[i]["n"] and p["n"] != f.params[i]["n"] and {p["n"], f.params[i]["n"]} != {"y", "rhs"}:
                         bad.append("parameter %d is '%s' in the wrapper but '%s' in %s" % (i, f.params[i]["n"], p["n"], cname))
             if not cname.startswith(f.name + "_"):
                 bad.append("wrapper %s dispatches to %s" % (f.name, cname))
-            agg.add(R, key, not bad, "; ".join(bad) if bad else "forwards (%s) position by position" % ", ".join(p["n"] for p in f.params), f.file, c.get("l"), inst=f.full)
-        if n == 0:
+            agg.add(R, key, not bad, "; ".join(bad) if bad else "forwards (%s) position by position%s" % (
+                ", ".join(p["n"] for p in f.params), "" if via is f else " through %s" % via.name), via.file, c.get("l"), inst=f.full)
+        if not ch:
             ck.incomplete(R, "dispatch wrapper %s (%s) contains no call to a kernel" % (f.full, f.loc))
 
 
@@ -871,19 +966,19 @@ def kernel_divides_by_a(k, assume_small=True):
     return out
 
 
-def resolve_generic(bydecl, call):
-    """Arch::Apply::X call -> list of kernel bodies it reaches (wrapper -> *_generic)"""
+def resolve_generic(bydecl, call, depth=0):
+    """Arch::Apply::X call -> list of generic kernel bodies it reaches (wrapper [-> dispatch helper]* -> *_generic)"""
     w = bydecl.get(call.get("cdecl"))
-    if w is None:
+    if w is None or depth > 3:
         return None
     if w.name.endswith("_generic"):
         return [w]
     out = []
     for c in arch_calls(w):
-        g = bydecl.get(c.get("cdecl"))
-        if g is None:
+        sub = resolve_generic(bydecl, c, depth + 1)
+        if sub is None:
             return None
-        out.append(g)
+        out.extend(g for g in sub if g not in out)
     return out or None
 
 
@@ -1276,11 +1371,7 @@ def rule_c6(ck, agg, f, fi, meta):
         return
     # range views alias their source through a const_cast inside DenseVector(dv, size, offset): views of the input
     # operands must stay in const callee positions
-    views = {}
-    for d, v in fi.vars.items():
-        vo = fi.view_of({"k": "Ref", "dk": "local", "d": d})
-        if vo is not None and vo[0] >= 1:
-            views[d] = (v, vo[0])
+    views = [r for r in fi.all_views() if r["p"] >= 1]
     if not views:
         return
     bad = []
@@ -1288,15 +1379,17 @@ def rule_c6(ck, agg, f, fi, meta):
     for c in f.calls():
         pts = c.get("pt", [])
         for i, a in enumerate(c.get("a", [])):
-            if a.get("k") == "Ref" and a.get("d") in views and i < len(pts):
+            r = fi.view_record(a)
+            if r is not None and r["p"] >= 1 and i < len(pts):
                 t = f.type(pts[i])
                 if ("&" in t or "*" in t) and not t.strip().startswith("const "):
                     bad.append("view '%s' of input operand %s is passed to the non-const parameter '%s' of %s (line %s)" % (
-                        a.get("n"), "rxy"[views[a["d"]][1]] if views[a["d"]][1] < 3 else "?", (c.get("pn") or ["?"] * 9)[i], c.get("callee", "?").rsplit("::", 1)[-1], c.get("l")))
+                        r["label"], "rxy"[r["p"]] if r["p"] < 3 else "?", (c.get("pn") or ["?"] * 9)[i], c.get("callee", "?").rsplit("::", 1)[-1], c.get("l")))
                     line = c.get("l") or line
         o = c.get("obj")
-        if c.get("k") == "MCall" and o is not None and o.get("k") == "Ref" and o.get("d") in views and not c.get("cconst"):
-            bad.append("non-const member '%s' called on view '%s' of an input operand (line %s)" % (c.get("n"), o.get("n"), c.get("l")))
+        ro = fi.view_record(o) if c.get("k") == "MCall" else None
+        if ro is not None and ro["p"] >= 1 and not c.get("cconst"):
+            bad.append("non-const member '%s' called on view '%s' of an input operand (line %s)" % (c.get("n"), ro["label"], c.get("l")))
             line = c.get("l") or line
     agg.add("C6.view-alias", fkey(f), not bad, "; ".join(bad) if bad else "%d range view(s) of x/y only in const positions" % len(views), f.file, line, inst=inst)
 
@@ -1393,7 +1486,7 @@ def proj_nf(fi, a):
     """operand projection normal form"""
     v = fi.view_of(a)
     if v is not None:
-        return ("view", v[0], extent_nf(fi, v[1]), extent_nf(fi, v[2]), a.get("n"))
+        return ("view", v[0], extent_nf(fi, v[1]), extent_nf(fi, v[2]), fi.view_record(a)["label"])
     a = fi.resolve(a)
     if a.get("k") == "Ref" and a.get("dk") == "param" and a.get("d") in fi.pindex:
         if fi.pkind[fi.pindex[a["d"]]] == "a":
@@ -1482,7 +1575,7 @@ def rule_e4(ck, agg, f, fi, persp_guards, bydecl):
             continue
         elif k == "Decl":
             for v in s.get("vars", []):
-                if fi.view_of({"k": "Ref", "dk": "local", "d": v["d"]}) is None:
+                if not fi._local_views(v["d"]):
                     ri = fi.role({"k": "Ref", "dk": "local", "d": v["d"], "n": v["n"]})
                     if v.get("init") is not None and extent_nf(fi, v["init"]) is None and ri[0] == "?":
                         ck.incomplete("E4.matvec", "%s: unrecognised local '%s' (line %s)" % (key, v.get("n"), v.get("l")))
@@ -1515,6 +1608,10 @@ def rule_e4(ck, agg, f, fi, persp_guards, bydecl):
 
         def chk(p, side, idx, param, what):
             e = expected_proj(struct, var, flat, side, idx, param)
+            if p[0] == "?":
+                # an operand expression the rule cannot resolve to a component / range view of a parameter is not a wrong operand
+                ck.incomplete("E4.matvec", "%s: %s operand '%s' is not a recognised component or range view of an operand (line %s)" % (ckey, what, p[1][:60], c.get("l")))
+                return
             if e[0] == "viewidx":
                 if not view_matches(struct, p, side, idx, param):
                     bad.append("%s operand is %s; expected the range of param#%d that covers block %s %d (length = %s of a block in it, offset = %s)" % (
@@ -1555,13 +1652,15 @@ def rule_e4(ck, agg, f, fi, persp_guards, bydecl):
     # callee precondition of the range-view constructor: DenseVector(dv, size, offset) asserts size > 0
     if flat:
         unmet, nviews = [], 0
-        for d, v in fi.vars.items():
-            vo = fi.view_of({"k": "Ref", "dk": "local", "d": d})
-            if vo is None:
-                continue
+        for vr in fi.all_views():
+            v = vr["var"]
             nviews += 1
-            init = v["init"]
-            pre = positive_preconditions(bydecl.get(init.get("cdecl")))
+            init = dict(vr["ctor"], a=vr["a"])
+            rc = bydecl.get(init.get("cdecl"))
+            if rc is None or not rc.d.get("ctor") or [p_["n"] for p_ in rc.params] != init.get("pn"):
+                # constructor calls in member initialisers carry no declaration id: find the range constructor by signature
+                rc = next((g for g in bydecl.values() if g.qn == init.get("callee") and [p_["n"] for p_ in g.params] == init.get("pn")), None)
+            pre = positive_preconditions(rc)
             if pre is None:
                 ck.incomplete("E4.view-nonempty", "%s: body of the range-view constructor not in the facts" % key)
                 continue
@@ -1585,7 +1684,7 @@ def rule_e4(ck, agg, f, fi, persp_guards, bydecl):
                     if br == "then" and cnd.get("k") == "Bin" and cnd.get("op") in (">", "!=") and render(fi.resolve(cnd["lhs"])) == want and fi.role(cnd["rhs"]) == ("const", 0.0):
                         est = True
                 if not est:
-                    unmet.append("%s(%s, %s, ...): the constructor asserts '%s' but %s may be 0" % (v["n"], render(init["a"][0]), render(arg), txt,
+                    unmet.append("%s(%s, %s, ...): the constructor asserts '%s' but %s may be 0" % (vr["label"], render(init["a"][0]), render(arg), txt,
                                                                                                   ("%s().%s()" % (e[1], e[2])) if e and e[0] == "ext" else render(arg)))
         if nviews:
             agg.add("E4.view-nonempty", key, not unmet,
@@ -1595,13 +1694,10 @@ def rule_e4(ck, agg, f, fi, persp_guards, bydecl):
     # perspective of flat views and guards
     if flat and var != "[1]" and t != "PowerFullMatrix":
         native = []
-        for d, v in fi.vars.items():
-            vo = fi.view_of({"k": "Ref", "dk": "local", "d": d})
-            if vo is None:
-                continue
-            for e in (extent_nf(fi, vo[1]), extent_nf(fi, vo[2])):
+        for vr in fi.all_views():
+            for e in (extent_nf(fi, vr["len"]), extent_nf(fi, vr["off"])):
                 if e is not None and e[0] == "ext" and e[3] != "pod":
-                    native.append("%s: %s().%s<%s>()" % (v["n"], e[1], e[2], e[3]))
+                    native.append("%s: %s().%s<%s>()" % (vr["label"], e[1], e[2], e[3]))
         for pp, c in persp_guards:
             if pp != "pod":
                 native.append("guard %s" % render(c["a"][0]))
@@ -2993,23 +3089,34 @@ def run(tier):
             ck.note("%s (%s): body does not instantiate (E0); other rules skipped for it" % (fkey(f), f.loc))
             continue
         fi = FnInfo(f)
+        fi.bydecl = bydecl
         meta = tmpl(f.cls) in META
         if arity(f) not in (2, 4) or fi.pkind[0] not in ("DV", "DVB", "VL", "VR", "MV") or (arity(f) == 4 and fi.pkind[3] != "a"):
             ck.incomplete("E1.role", "%s at %s: unexpected signature (%s)" % (f.full, f.loc, ",".join(fi.pkind)))
             continue
         if meta:
-            pg = rule_e1_guards(ck, agg, f, fi, meta)
-            rule_c6(ck, agg, f, fi, meta)
+            # helpers of the class called on *this with arguments (view factories, shared guard blocks) are inlined; block calls
+            # first().apply(..) are calls on other objects and stay
+            fm = inline_member(f, bydecl)
+            if fm.inlined:
+                fmi = FnInfo(fm)
+                fmi.bydecl = bydecl
+                inlined_helpers |= {c_.d.get("decl") for c_, _ in fm.inlined}
+            else:
+                fm, fmi = f, fi
+            pg = rule_e1_guards(ck, agg, fm, fmi, meta)
+            rule_c6(ck, agg, fm, fmi, meta)
             nmeta += 1
-            if any(True for _ in arch_calls(f)):
+            if any(True for _ in arch_calls(fm)):
                 ck.incomplete("E4.matvec", "%s: meta container calls an Arch kernel directly" % fkey(f))
-            rule_e4(ck, agg, f, fi, pg, bydecl)
+            rule_e4(ck, agg, fm, fmi, pg, bydecl)
         else:
             nsc += 1
             # helpers of the class (shared implementation of twins, extracted early-out, predicate helpers) are inlined
             fx = inline_member(f, bydecl)
             if fx.inlined:
                 fxi = FnInfo(fx)
+                fxi.bydecl = bydecl
                 inlined_helpers |= {c_.d.get("decl") for c_, _ in fx.inlined}
             else:
                 fx, fxi = f, fi
